@@ -4,7 +4,6 @@ import "unicode"
 
 // L-PRUNE (C04, C01): a recording, pruned of its discarded groups, replays to the same values.
 
-
 // pruneReplay runs draw on a recording stream over L symbolic words, prunes the recording and
 // replays it through a fresh buffer stream; values and verdict must be identical.
 func pruneReplay(L int, draw func(t *T) []uint64) {
